@@ -15,6 +15,7 @@ from harness import common
 from harness.common import SX_ERR
 
 warnings.simplefilter("ignore")
+warnings.showwarning = lambda *a, **k: None   # the deprecated-API decorator re-enables warnings on every call
 import os
 os.environ["PYTHONWARNINGS"] = "ignore"
 
